@@ -186,7 +186,7 @@ def run_one(tape: Any, cfg: Dict[str, Any], forbid: FrozenSet[str] = frozenset()
                     for j in range(nfollow):
                         if not alive:
                             break
-                        fe = expect_followup(tables, N, j + 2)
+                        fe = expect_followup(tables, N, exp['counts'])
                         cn['fexp'].append(fe)
                         r2 = b'GET http://' + hp + b'/r%d HTTP/1.1\r\nHost: ' % (j + 1) + hp + b'\r\nX-Keep: yes\r\n\r\n'
                         script.append(('send', r2, 'burst'))
@@ -267,11 +267,15 @@ def _act(table: Dict[str, Any], hook: str, n: int) -> Any:
     return a
 
 
-def _chain(tables: List[Dict[str, Any]], N: int, hook: str, n: int, marks: Set[bytes], suffix: bytes) -> Dict[str, Any]:
+def _chain(tables: List[Dict[str, Any]], N: int, hook: str, counts: Dict[Tuple[int, str], int], marks: Set[bytes],
+           suffix: bytes) -> Dict[str, Any]:
+    """One pass down the chain.  `counts` holds, per (plugin, hook), how often that hook of that plugin instance has run on
+    this connection: a plugin that an earlier one shields (drop / reject) does not see the call."""
     calls = []
     out: Dict[str, Any] = {'calls': calls, 'dropped': False, 'reject': None, 'raised': False}
     for i in range(N):
-        a = _act(tables[i], hook, n)
+        counts[(i, hook)] = counts.get((i, hook), 0) + 1
+        a = _act(tables[i], hook, counts[(i, hook)])
         calls.append((i + 1, hook, tuple(sorted(marks))))
         if a in ('modify', 'replace'):
             marks.add(b'x-mark-%d%s' % (i + 1, suffix))
@@ -289,8 +293,10 @@ def _chain(tables: List[Dict[str, Any]], N: int, hook: str, n: int, marks: Set[b
 
 def expect_first(tables: List[Dict[str, Any]], N: int, is_connect: bool) -> Dict[str, Any]:
     marks: Set[bytes] = set()
-    e: Dict[str, Any] = {'connect': True, 'forward': True, 'reject': None, 'raised': False, 'hcr_checked': True}
-    b = _chain(tables, N, BUC, 1, marks, b'b')
+    counts: Dict[Tuple[int, str], int] = {}
+    e: Dict[str, Any] = {'connect': True, 'forward': True, 'reject': None, 'raised': False, 'hcr_checked': True,
+                         'counts': counts}
+    b = _chain(tables, N, BUC, counts, marks, b'b')
     e['buc_calls'] = b['calls']
     e['hcr_calls'] = []
     e['dns_calls'] = []
@@ -309,7 +315,7 @@ def expect_first(tables: List[Dict[str, Any]], N: int, is_connect: bool) -> Dict
         if isinstance(a, tuple) and a[0] == 'ip':
             e['ip'] = a[1]
             break
-    hc = _chain(tables, N, HCR, 1, marks, b'h')
+    hc = _chain(tables, N, HCR, counts, marks, b'h')
     e['hcr_calls'] = hc['calls']
     if hc['reject'] is not None or hc['raised']:
         e.update({'forward': False, 'reject': hc['reject'], 'raised': hc['raised'], 'stage': 'hcr'})
@@ -319,9 +325,9 @@ def expect_first(tables: List[Dict[str, Any]], N: int, is_connect: bool) -> Dict
     return e
 
 
-def expect_followup(tables: List[Dict[str, Any]], N: int, n: int) -> Dict[str, Any]:
+def expect_followup(tables: List[Dict[str, Any]], N: int, counts: Dict[Tuple[int, str], int]) -> Dict[str, Any]:
     marks: Set[bytes] = set()
-    hc = _chain(tables, N, HCR, n, marks, b'h')
+    hc = _chain(tables, N, HCR, counts, marks, b'h')
     return {'hcr_calls': hc['calls'], 'forward': not (hc['dropped'] or hc['raised'] or hc['reject'] is not None),
             'reject': hc['reject'], 'raised': hc['raised'], 'marks': set(marks)}
 
